@@ -159,6 +159,8 @@ def attribute(ctx, prop, progs, base, failing, fuel=20000):
             m = f.get("match", {})
             if m.get("feature") and engine in m.get("engines", []) and has_kind(progs[pid], m["feature"]):
                 out[(pid, engine)] = [f["id"]]
+            if engine in m.get("engines", []) and m.get("program_regex") and __import__("re").search(m["program_regex"], pid):
+                out[(pid, engine)] = [f["id"]]
             if engine in m.get("engines", []) and m.get("source_regex") and "__files__" in progs[pid] and \
                     any(__import__("re").search(m["source_regex"], t) for t in progs[pid]["__files__"].values()):
                 out[(pid, engine)] = [f["id"]]
